@@ -293,7 +293,7 @@ Proof. vm_compute. repeat split; reflexivity. Qed.
 
 (* ------------------------------------------------------------------ ownership on every exit path; hand-over to the embedded store
    (ModelOwn.v: transcription of Ingestor.ProcessDocuments / processDocsToCompressor with their defers) *)
-From C10 Require Import ModelOwn ProofsOwn.
+From C10 Require Import ModelOwn ProofsOwn ProofsOwnFetch.
 Close Scope Z_scope.
 Open Scope nat_scope.
 
@@ -376,3 +376,21 @@ Example C10_shallow_copy_refuted :
   single_fetch false [b0; b1] [true; true] = [[None]; [Some [100%N]]] /\
   single_fetch true [b0; b1] [true; true] = [[Some [100%N]]; [Some [200%N]]].
 Proof. exact shallow_refuted. Qed.
+
+(* The schedules the single-mode correspondence class executes on the real code — complete bulks (true) and steps of the
+   only index worker (false) in any order, any number of bulks, the compressor just put back handed to the next bulk,
+   finally the store waited idle — with pairwise different IDs: every ID of every bulk is registered and fetches that
+   bulk's own document (this is exactly the executable statement case_spec_ok evaluates on the implementation). *)
+Theorem C10_single_mode_fetch_own : forall bs sched,
+  ntrue sched = length bs -> NoDup (flat_map (fun b => map fst b) bs) ->
+  single_fetch true bs sched = map (fun b => map (fun p => Some (snd p)) b) bs.
+Proof. exact single_fetch_own. Qed.
+Print Assumptions C10_single_mode_fetch_own.
+
+Example C10_single_mode_nonvacuous :
+  ntrue [true; true] = length [b0; b1] /\ NoDup (flat_map (fun b => map fst b) [b0; b1]) /\
+  single_fetch true [b0; b1] [true; false; true] = [[Some [100%N]]; [Some [200%N]]].
+Proof.
+  repeat split; try (vm_compute; reflexivity).
+  vm_compute. constructor; [intros [E|[]]; discriminate|constructor; [intros []|constructor]].
+Qed.
